@@ -218,6 +218,92 @@ fn permutations<T: Clone>(xs: &[T]) -> Vec<Vec<T>> {
     out
 }
 
+/// Live servers: the `nodes` of find_node / get_peers / get / get_signed_peers replies are the
+/// closest nodes of the server's own tables (ground truth from the snapshot hook).
+fn live_servers(r: &mut Report, seed: u64, servers: usize) {
+    use crate::krpc::*;
+    use crate::props::net::{build_net, snapshot, IpPlan};
+    use crate::simnet::*;
+    let mut rng = Rng::new(seed);
+    let w = World::with_cfg(seed, NetCfg::default(), TraceLevel::Off);
+    let plan = [IpPlan::Public, IpPlan::Private, IpPlan::Mixed, IpPlan::PublicSecure][rng.usize(4)];
+    let net = build_net(&w, servers, 0, plan, servers > 30, &mut rng);
+    w.run_for(10 * SEC);
+    let probe = w.raw(SocketAddrV4::new(Ipv4Addr::new(98, 7, 6, 5), 6881));
+    let pid: [u8; 20] = rng.array();
+    let case = json!({"class":"live-server","seed":seed.to_string(),"servers":servers});
+    for (si, server) in net.nodes.iter().enumerate() {
+        if si % 3 != 0 && servers > 10 {
+            continue;
+        }
+        let Some(snap) = snapshot(&w, server) else { continue };
+        let main: Vec<N> = snap.table.nodes.iter().map(|n| (*n.0.as_bytes(), n.1)).collect();
+        let signed: Vec<N> = snap.signed_table.nodes.iter().map(|n| (*n.0.as_bytes(), n.1)).collect();
+        for qi in 0..4 {
+            let target: [u8; 20] = if rng.bool() { rng.array() } else { main.first().map(|n| { let mut t = n.0; t[19] ^= 3; t }).unwrap_or([7; 20]) };
+            let t = [0, 0, 0x70 + qi as u8, si as u8];
+            let (name, q) = match qi {
+                0 => ("find_node", q_find_node(&t, &pid, &target, true, None)),
+                1 => ("get_peers", q_get_peers(&t, &pid, &target, false)),
+                2 => ("get", q_get(&t, &pid, &target, None)),
+                _ => ("get_signed_peers", q_get_peers(&t, &pid, &target, true)),
+            };
+            while w.raw_recv(probe).is_some() {}
+            w.raw_send(probe, &q, server.addr);
+            let mut reply: Option<Krpc> = None;
+            w.run_until(2 * SEC, |w| {
+                while let Some((_, d)) = w.raw_recv(probe) {
+                    if let Some(k) = Krpc::parse(&d.bytes) {
+                        if k.t == t {
+                            reply = Some(k);
+                            return true;
+                        }
+                    }
+                }
+                false
+            });
+            r.eval();
+            let Some(k) = reply else {
+                r.violation(&format!("live/no-reply/{name}"), "a server did not answer a lookup request", case.clone(), json!({"server": server.addr.to_string()}));
+                continue;
+            };
+            let got: Vec<N> = k.nodes();
+            let sorted = |v: &[N]| -> Vec<N> {
+                let mut v = v.to_vec();
+                v.sort_by(|a, b| order(a, b, &target));
+                v.truncate(20);
+                v
+            };
+            let want: Vec<N> = match name {
+                "get_signed_peers" => sorted(&signed),
+                "find_node" => {
+                    // documented server behaviour: nodes supporting signed peers first, topped up from the main table
+                    let mut v = sorted(&signed);
+                    let fill = 20usize.saturating_sub(v.len());
+                    v.extend(sorted(&main).into_iter().take(if v.len() < 20 { fill } else { 0 }));
+                    v
+                }
+                _ => sorted(&main),
+            };
+            if got.len() > 20 {
+                r.violation(&format!("live/more-than-20/{name}"), "a reply lists more than 20 nodes", case.clone(), json!({"len": got.len()}));
+            } else if got != want {
+                let member = got.iter().all(|g| main.contains(g) || signed.contains(g));
+                let sig = if !member { "non-member" } else { "not-the-closest" };
+                r.violation(&format!("live/{sig}/{name}"), "the nodes of a reply are not the closest nodes of the server's routing table", case.clone(), json!({"server": server.addr.to_string(), "got": got.iter().map(show).collect::<Vec<_>>(), "want": want.iter().map(show).collect::<Vec<_>>() }));
+            }
+            r.count("live_replies_checked");
+            if main.len() > 20 || main.iter().any(|n| !secure(n)) && main.iter().any(secure) {
+                r.nontrivial(mix(seed, (si * 4 + qi) as u64));
+            }
+        }
+    }
+    drop(net);
+    for (thread, loc, msg) in crate::take_panics() {
+        r.violation(&format!("panic/{loc}"), &format!("thread {thread} panicked: {msg}"), case.clone(), json!({}));
+    }
+}
+
 pub fn run(a: &Args) -> Report {
     let quick = a.quick();
     let threads = a.threads.max(1);
@@ -268,6 +354,12 @@ pub fn run(a: &Args) -> Report {
     });
     for p in parts {
         total.merge(p);
+    }
+    // live servers in SimNet (the process-global environment is free again: the threads are joined)
+    let sizes: Vec<usize> = if quick { vec![4, 12, 25, 45] } else { vec![3, 8, 20, 21, 30, 45, 60, 100] };
+    for (i, n) in sizes.into_iter().enumerate() {
+        let s = mix(a.seed, 0x11fe + i as u64);
+        super::guarded(&mut total, json!({"class":"live-server","seed":s.to_string(),"servers":n}), |r| live_servers(r, s, n));
     }
     total
 }
